@@ -6,7 +6,7 @@ import os
 ROOT = os.path.join(os.path.dirname(os.path.abspath(__file__)), "..")
 props = [json.loads(l) for l in open(os.path.join(ROOT, "properties.jsonl"))]
 
-GRAPH = "DepGraph.tla (reference digraph) model-checked by TLC; every transition of its state graph and all digraphs <=4 nodes replayed on the real graph component; every query compared by the trace specification DepGraphTrace"
+GRAPH = "DepGraph.tla (reference digraph) model-checked by TLC; every transition of its state graph (also with the last answered graph in the fingerprint: answer / deferred change / answer sequences), all digraphs <=4 nodes and all 3-node digraphs with repeated edges replayed on the real graph component; every query compared by the trace specification DepGraphTrace"
 CONT = "Container.tla (state, Apply, property-tagged guards) with the reference semantics of ContainerMC model-checked by TLC (all guards + state invariants over all histories within the bounds); every transition of the history model and every configuration of the factored configuration space (ContainerSweep) executed on the real container; every recorded event validated by TLC against ContainerTrace with Check={this property}"
 
 CONC = "ScopeConc.tla (the concurrent protocol of provider and scopes, one action per critical section, threads as procedure stacks, context watchers) model-checked by TLC for 2-3 threads over all listed operation mixes (no double close, single scoped instance, quiescent accounting, children before parents, scopes before singletons, release, no deadlock); every gate-level transition emitted as a schedule and replayed on the real container by a cooperative scheduler built on the verif hook gates; random k-goroutine programs with real parallelism; all traces validated by TLC against ConcTrace"
@@ -14,7 +14,7 @@ CONC = "ScopeConc.tla (the concurrent protocol of provider and scopes, one actio
 REG = "Registry.tla (live descriptor sequence, snapshots, items incl. colliding multi-output and invalid Add calls) model-checked by TLC (atomic add, one registration per identity, stable snapshots, module transparency); every transition of RegistryMC replayed on a real collection: full query vector after every call, constructors run and resolvability matrix after every Build, earlier providers re-probed after every later edit; validated by TLC against RegistryTrace"
 
 CHECKS = {
-    "C01": (CONT, "3.3, 6 (C01)"), "C02": (CONT + "; concurrent half: " + CONC, "3.3, 3.4, 6 (C02)"), "C03": (CONT, "3.3, 6 (C03)"),
+    "C01": (CONT, "3.3, 6 (C01)"), "C02": (CONT + "; concurrent half: " + CONC, "3.3, 3.4, 6 (C02)"), "C03": (CONT + "; random concurrent programs validated against ConcTrace (no transient reaches two constructor invocations)", "3.3, 6 (C03)"),
     "C04": (CONT + "; function-value kinds (closure, method value, generic instantiation, reflect.MakeFunc) as an extra configuration family", "3.3, 6 (C04)"),
     "C05": (GRAPH + " (verdict + reported path); " + CONT, "3.1, 3.3, 6 (C05)"),
     "C06": (GRAPH + " (topological order); " + CONT + "; rebuilds and permuted registration order compared inside the trace spec (verdict + wiring signature)", "3.1, 3.3, 6 (C06)"),
@@ -22,12 +22,12 @@ CHECKS = {
     "C10": (CONT + "; fault position enumerated over constructor invocations of Build / CreateScope / Resolve, close-error subsets", "3.3, 6 (C10)"),
     "C11": (CONT + "; concurrent half: " + CONC, "3.3, 3.4, 6 (C11)"), "C12": (CONT + "; all listed subsets of failing Close methods, repeated closes, cancellation", "3.3, 6 (C12)"),
     "C13": (CONT + "; concurrent half: " + CONC, "3.3, 3.4, 6 (C13)"), "C15": (CONT + "; fault kind error / panic / typed nil at every listed position", "3.3, 6 (C15)"),
-    "C18": (CONT + "; built-ins positional and as parameter-object fields in all three lifetimes over root/child/grandchild/sibling scopes; reserved types in every output position rejected (RegistryMC items c1-c5)", "3.2, 3.3, 6 (C18)"),
+    "C18": (CONT + "; built-ins positional and as parameter-object fields in all three lifetimes over root/child/grandchild/sibling scopes; reserved types in every output position, alone and as group members, rejected (RegistryMC items c1-c8); scope contexts carry the deadline / cancellation of the context they must be derived from (given, derived from the parent scope, or none)", "3.2, 3.3, 6 (C18)"),
     "C19": (GRAPH, "3.1, 6 (C19)"),
-    "C17": (REG, "3.2, 6 (C17)"),
+    "C17": (REG + "; deeper add / remove / re-add / build histories over the multi-output and alias items; the container history model over registration sets with outputs removed before Build (removed outputs not found, dead registrations and removed named initializers never run)", "3.2, 3.3, 6 (C17)"),
     "C16": ("Middleware.tla (per-request life cycle: one scope per request, callbacks in configuration order all seeing that scope, error handler instead of handler, Handle resolving before calling, panic swallowed iff recovery, scope closed exactly once) with the reference life cycle of MiddlewareMC model-checked by TLC over the whole configuration space and all interleavings of 1-3 concurrent requests; every configuration executed on the real net/http, chi, gin, echo and fiber integrations (harness-web); every callback / error handler / scope close / scoped-instance close recorded and validated by TLC against MiddlewareTrace", "3.5, 6 (C16)"),
     "C09": (CONC + "; data races: the same programs under Go's race detector with no recorder installed", "3.4, 6 (C09)"),
-    "C14": (CONT + "; quiescent observations (goroutine count, weak-pointer reachability of closed scopes and their instances after GC, context state) validated against the specification state; N = 10..3000 create/use/close cycles; " + CONC, "3.3, 3.4, 6 (C14)"),
+    "C14": (CONT + "; quiescent observations (goroutine count, weak-pointer reachability of closed scopes and their instances after GC, context state) validated against the specification state; N = 10..1500 create/use/close cycles; scope objects of refused creations end with a cancelled context; " + CONC, "3.3, 3.4, 6 (C14)"),
     "C20": (REG + "; module trees (leaves + module-name chains) applied through AddModules and, as direct calls, to a twin collection", "3.2, 6 (C20)"),
 }
 NOTE = "bounded exploration (constants in the evidence file: design_runs); the Go harness, its recorder and TLC are trusted; sequential histories only unless stated"
